@@ -90,6 +90,21 @@ pub fn gen(tier: Tier, rng: &mut Rng) -> Vec<Sx> {
                 }
                 v.push(Sx::l(vec![Sx::n(0), Sx::l(ops)]));
             }
+            1 if rng.chance(1, 2) => { // beta, dense: two key values, fact indices 0..3; removes name ANY (key, index) pair - present, already
+                // removed or never added - and every lookup is of one of the two keys (a remove that names no live entry changes nothing)
+                let k1 = rv(rng, &p); let k2 = rv(rng, &p);
+                let mut ops = vec![];
+                for _ in 0..rng.range(3, 9) {
+                    let k = if rng.chance(1, 2) { &k1 } else { &k2 };
+                    ops.push(match rng.below(5) {
+                        0 | 1 => Sx::l(vec![Sx::n(0), Sx::opt(Some(enc_v(k))), Sx::i(rng.below(4) as i64)]),
+                        2 | 3 => Sx::l(vec![Sx::n(1), Sx::opt(Some(enc_v(k))), Sx::i(rng.below(4) as i64)]),
+                        _ => Sx::l(vec![Sx::n(2), enc_v(k)]),
+                    });
+                }
+                ops.push(Sx::l(vec![Sx::n(2), enc_v(&k1)])); ops.push(Sx::l(vec![Sx::n(2), enc_v(&k2)]));
+                v.push(Sx::l(vec![Sx::n(1), Sx::l(ops)]));
+            }
             1 => { // beta: add / remove (same fact as added) / lookup
                 let mut ops = vec![]; let mut added: Vec<(Option<FactValue>, i64)> = vec![];
                 for _ in 0..rng.range(3, 10) {
